@@ -28,18 +28,36 @@ Definition api_step (l : list Z) : list Z :=
         let frames := if start =? 3 then 2 else 1 in
         [0; frames; frames; 0; res]
       else [1]
+  | [3; depth] =>
+      (* co_await chain of the given depth started by join(): the innermost returns 0, every level adds 1; depth+1 bodies ran *)
+      if (0 <=? depth) && (depth <=? 1000000) then [0; depth; depth + 1] else [1]
+  | [4; kind; thr; v] =>
+      (* a coroutine co_awaits an async<T> that throws (thr=1): it must see the exception (1000+v), else the value; it continues once *)
+      if (0 <=? kind) && (kind <=? 4) && (0 <=? thr) && (thr <=? 1) then [0; (if thr =? 1 then 1000 + v else 0); 1] else [1]
+  | [5; threads; v] =>
+      (* thread_pool(threads).run(waiter) then run(setter): the waiter suspends on a future the setter resolves; result v+1, body once *)
+      if (1 <=? threads) && (threads <=? 3) then [0; v + 1; 1] else [1]
   | _ => [1]
   end.
 
 Definition api_run (ops : list (list Z)) : list (list Z) := map api_step ops.
 
-(* the property on an observed trace: every scenario accepted, frames allocated = deallocated with matching sizes *)
-Definition api_ok_line (o : list Z) : bool :=
-  match o with
-  | [0; _] => true
-  | [0; a; d; bad; _] => (a =? d) && (bad =? 0)
-  | [1] => true
-  | _ => false
+(* the property on an observed line: the bound party received exactly the result (value or exception), every body ran once,
+   frames allocated = deallocated with matching sizes *)
+Definition api_ok (op o : list Z) : bool :=
+  match op, o with
+  | [1; kind; _; v], [0; c] => c =? chk kind v
+  | [2; _; _; _; _], [0; a; d; bad; _] => (a =? d) && (bad =? 0)
+  | [3; depth], [0; r; levels] => (r =? depth) && (levels =? depth + 1)
+  | [4; _; thr; v], [0; r; after] => (r =? (if thr =? 1 then 1000 + v else 0)) && (after =? 1)
+  | [5; _; v], [0; r; ran] => (r =? v + 1) && (ran =? 1)
+  | _, [1] => true
+  | _, _ => false
   end.
-Definition api_oracle (ops obs : list (list Z)) : bool :=
-  Nat.eqb (length ops) (length obs) && forallb api_ok_line obs.
+Fixpoint api_all (ops obs : list (list Z)) : bool :=
+  match ops, obs with
+  | [], [] => true
+  | a :: t, b :: u => api_ok a b && api_all t u
+  | _, _ => false
+  end.
+Definition api_oracle (ops obs : list (list Z)) : bool := api_all ops obs.
